@@ -45,8 +45,9 @@ structure Std where
   datetimeTimestamp : S → Option Int
   /-- `date_to_timestamp(date.fromisoformat(tok))` -/
   dateTimestamp : S → Option Int
-  /-- `str(i)` is concrete (`intRepr`); `repr(s)` of a str for `str(list)` is not modelled -/
-  unit : Unit := ()
+  /-- which texts are canonical tokens of a leaf kind (the image of `str(Decimal)`, `str(Path)`, `UUID.hex`,
+  `isoformat()`); only used in hypotheses, never evaluated by the model -/
+  validTok : LeafKind → S → Bool := fun _ _ => true
 
 /-- decimal text of an `Int` (Python `str(i)`) -/
 def natDigits (n : Nat) : S := (Nat.repr n).toList
